@@ -274,6 +274,12 @@ func c01Exchanges(e *vh.Env, c c01Cfg) []c01Ex {
 			}
 		})
 	}
+	add("stream header flushed before the body", func(x *c01Ex) {
+		// the response header goes out at once (long polling, server-sent events that start later), the first body byte 3 s later
+		x.Stream = true
+		x.Script.Framing = "chunked"
+		x.Script.Steps = []vh.Step{{Op: "flush"}, {Op: "sleep", Ms: 3000}, {Op: "write", N: 400}}
+	})
 	add("stream many events", func(x *c01Ex) {
 		x.Stream = true
 		x.Script.Framing = "chunked"
@@ -554,6 +560,12 @@ func init() {
 						}
 					}
 					at := func(res *vh.RawResp) time.Duration {
+						if first == 0 {
+							if res.Status == 0 {
+								return -1
+							}
+							return time.Duration(res.HeadAt) // nothing but the header was flushed: its arrival counts
+						}
 						for _, m := range res.Marks {
 							if m.N >= first {
 								return time.Duration(m.At)
@@ -567,7 +579,7 @@ func init() {
 					} else {
 						o.Obs("stream_checks", 1)
 						if ap < 0 || ap >= firstSleep {
-							viol("stream-delayed", fmt.Sprintf("the backend flushed %d bytes and then waited %v; directly they arrive at +%v, through Helios at +%v", first, firstSleep, ad, ap))
+							viol("stream-delayed", fmt.Sprintf("the backend flushed its header and %d body bytes and then waited %v; directly they arrive at +%v, through Helios at +%v", first, firstSleep, ad, ap))
 						}
 					}
 				}
